@@ -1,4 +1,4 @@
-"""C12: multi-part check (parts: bee, cd, hs); see harness/parts.py and the part modules."""
+"""C12: multi-part check (parts: beap, bee, cd, hs); see harness/parts.py and the part modules."""
 from harness.parts import make
 
-make(globals(), ['c12_bee', 'c12_cd', 'c12_hs'])
+make(globals(), ['c12_beap', 'c12_bee', 'c12_cd', 'c12_hs'])
